@@ -16,7 +16,7 @@ TRUSTED = ["the broker's own publishes on stats/<node>/ (monitoring sink 'self',
            "quiescence polling as for C02"]
 ASSUMPTIONS = ["internal failures while serving (Go panics) are covered by the regenerated facts 'Process defers Close' / 'Close recovers' of C09, not re-enacted here"]
 CLAIM = {
-    "text": "Lean 4 theorems over the broker model for every state reachable by any request history and every authorizer: when a connection ends, every subscription it held (ordinary, presence-change, link-created) is gone from the index, nothing is delivered to it any more, other connections' subscriptions are untouched, the connection counter drops by one (close_cleans); the last will is published iff one was supplied with a key allowing publication on its static channel (will_fires_iff) and never twice (will_once); one 'unsubscribe' event per subscription held (presence_leave). Tied to /repo by the differential broker run over cut points, DISCONNECT, malformed packets and plain closes.",
+    "text": "Lean 4 theorems over the broker model for every state reachable by any request history and every authorizer: when a connection ends, every subscription it held (ordinary, presence-change, link-created) is gone from the index, nothing is delivered to it any more, other connections' subscriptions are untouched, the connection counter drops by one (close_cleans); the last will is published iff one was supplied with a key allowing publication on its static channel (will_fires_iff) and never twice (will_once); one 'unsubscribe' event per subscription held (presence_leave). Tied to /repo by the differential broker run over cut points, DISCONNECT, malformed packets and plain closes. At history level (close_history_clean): after the end of an accepted connection, for the rest of ANY history, the specification set A of acknowledged subscriptions holds no pair of it, its record is empty and the index has no entry under its id.",
     "note": "Trusted: Lean kernel; harness; truncated packets have no effect (decoder model).",
     "technique": "Lean 4 proof (close_cleans / will lemmas from the sync invariant of the broker model) + differential correspondence check over every cut point of generated sessions",
 }
